@@ -142,5 +142,7 @@ pub fn run(args: &Args) {
             out.case("c02", &input, &obs(&r, swap_obs), replay);
         }
     }
+    // cosmwasm-std primitives against Prim.v
+    crate::prim::run_stream(&mut out, &mut rng, (args.n / 2).max(200));
     out.finish();
 }
